@@ -170,7 +170,7 @@ class MultiCorrector(Corrector):
                     seen[sug] = op(seen[sug], score)
                 else:
                     seen[sug] = score
-        return iteritems(seen)
+        return ((score, sug) for sug, score in iteritems(seen))
 
 
 # Query correction
